@@ -300,11 +300,16 @@ def check_transition(ctx, s, old, new, via):
             if st != "SCHEDULED":
                 prev = st
                 break
-        released = s.released_obs > 0
-        expect = "RELEASED" if released else prev
-        if expect is not None and new != expect:
+        # the statement allows "its earlier state": the state it was scheduled from; a task
+        # that was released while SCHEDULED may also come back as RELEASED
+        allowed = {prev} if prev is not None else {"VIRTUAL", "RELEASED"}
+        if s.released_obs > 0:
+            allowed.add("RELEASED")
+        if new not in allowed:
             ctx.violate("C06", "fallback_wrong_state",
-                        f"{s.uname}: SCHEDULED->{new}, expected {expect}", {"to": new})
+                        f"{s.uname}: SCHEDULED->{new}, its earlier state was {prev}", {"to": new})
+        if s.released_obs > 0 and new == "VIRTUAL":
+            ctx.probe("released_task_fell_back_to_virtual")
         ctx.probe("unscheduled")
     if new == "CANCELLED":
         ctx.probe("cancelled_from_" + old)
